@@ -31,6 +31,19 @@ pub fn gen_case(t: &mut Tape) -> Case {
     if t.chance(1, 2) {
         source.push_str(*t.pick(crate::prop::c07::EXTRAS));
     }
+    // a table s-string whose SQL uses one dialect's identifier quoting (the compiler looks into
+    // such SQL to learn the column names), joined at the end so that its columns are in the result
+    if t.chance(1, 4) {
+        let frag = *t.pick(&[
+            "s\"SELECT [id], [a] FROM t1\"",
+            "s\"SELECT `id`, `a` FROM t1\"",
+            "s\"SELECT \\\"id\\\", a FROM t1\"",
+            "s\"SELECT id, a FROM [t1]\"",
+            "s\"SELECT id, a FROM t1\"",
+            "s\"SELECT TOP 5 id, a FROM t1\"",
+        ]);
+        source.push_str(&format!(" | join side:left zs = (from {frag}) (true)"));
+    }
     // names of the `prql` std module (the header is registered under the same name)
     if t.chance(1, 5) {
         source.push_str(*t.pick(&[" | derive {zver = prql.version}", " | derive {zver = std.prql.version}", " | filter prql.version != \"0\""]));
